@@ -73,3 +73,153 @@ def table_under(tabs: list[MdTable], heading_part: str, nth: int = 0) -> MdTable
     if len(hits) <= nth:
         raise AnalysisError(f"README table under heading containing {heading_part!r} not found")
     return hits[nth]
+
+
+# ---------------------------------------------------------------------------
+# instruction tables: rows keyed by their opcode bit patterns
+
+_GROUPS = {"r₁": {0, 1}, "r₂": {2, 3}, "r₃": {4, 5, 6, 7}, "r₄": {4, 5, 6}, "r1": {0, 1}, "r2": {2, 3}, "r3": {4, 5, 6, 7}, "r4": {4, 5, 6}}
+
+
+def _expand_bin(pattern: str) -> set[int] | None:
+    """'0000 1 r' -> {0x08..0x0F}; '1s00 0 r'₃' -> {0x80..0x87, 0xC0..0xC7}; '0010 1rr0' -> {0x28,0x2A,0x2C,0x2E}."""
+    p = pattern.replace(" ", "").replace("`", "")
+    # tokens: bits or wildcard groups
+    toks: list[str] = []
+    i = 0
+    while i < len(p):
+        ch = p[i]
+        if ch in "01":
+            toks.append(ch)
+            i += 1
+        elif ch in "rs":
+            j = i + 1
+            while j < len(p) and p[j] in "'₁₂₃₄1234":
+                j += 1
+            toks.append(p[i:j])
+            i = j
+        else:
+            return None
+    fixed = sum(1 for t in toks if t in "01")
+    wild = [t for t in toks if t not in ("0", "1")]
+    if not toks:
+        return None
+    free = 8 - fixed
+    if free < 0:
+        return None
+    if not wild:
+        return {int("".join(toks), 2)} if len(toks) == 8 else None
+    # distribute free bits: single-bit wildcards when the token count is exactly 8, else the last register group takes the rest
+    widths = []
+    if len(toks) == 8:
+        widths = [1] * len(wild)
+    else:
+        rem = free
+        for k, t in enumerate(wild):
+            if t.startswith("s"):
+                widths.append(1)
+                rem -= 1
+            else:
+                widths.append(None)
+        regs = [k for k, w in enumerate(widths) if w is None]
+        if not regs:
+            return None
+        each = rem // len(regs)
+        for k in regs:
+            widths[k] = each
+        if sum(widths) != free:
+            return None
+    out = {0}
+    wi = 0
+    for t in toks:
+        if t in "01":
+            out = {(v << 1) | int(t) for v in out}
+        else:
+            w = widths[wi]
+            wi += 1
+            out = {(v << w) | x for v in out for x in range(1 << w)}
+    return out
+
+
+def _hex_match(v: int, hexpat: str) -> bool:
+    alts = [h.strip() for h in hexpat.split("/") if h.strip()]
+    for h in alts:
+        h = h.replace("H", "")
+        if len(h) != 2:
+            continue
+        ok = True
+        for nib, ch in zip(((v >> 4) & 0xF, v & 0xF), h.upper()):
+            if ch == "X":
+                continue
+            if ch not in "0123456789ABCDEF" or int(ch, 16) != nib:
+                ok = False
+        if ok:
+            return True
+    return not alts
+
+
+@dataclass
+class InstrDoc:
+    mnemonic: str
+    flags: str
+    nbytes: int | None
+    opcodes: set[int]
+    selectors: set[int] | None
+    line: int
+    heading: str
+
+
+def instruction_docs(repo: Path = REPO) -> list[InstrDoc]:
+    out = []
+    for t in tables(repo):
+        hdr = [h.strip() for h in t.header]
+        if "Flags (C Z)" not in hdr or "Mnemonic" not in hdr:
+            continue
+        cm, cf, cb = hdr.index("Mnemonic"), hdr.index("Flags (C Z)"), hdr.index("Bytes")
+        co = [i for i, h in enumerate(hdr) if h.startswith("Opcode")][0]
+        for r, ln in zip(t.rows, t.lines):
+            if len(r) <= co or not r[co].strip():
+                continue
+            parts = [x.strip() for x in r[co].split("<br>")]
+            first = parts[0]
+            if "/" not in first:
+                continue
+            binp, hexp = first.split("/", 1)
+            ops = _expand_bin(binp)
+            hexs = hexp.strip()
+            if ops is None:
+                # fall back on the hex alternatives when they are fully specified
+                alts = [h.strip() for h in hexs.split("/")]
+                if all(len(h) == 2 and "X" not in h.upper() for h in alts):
+                    ops = {int(h, 16) for h in alts}
+                else:
+                    raise AnalysisError(f"README {t.heading!r} line {ln}: opcode pattern {first!r} unreadable")
+            alts = [h.strip().replace("H", "") for h in hexs.split("/") if h.strip()]
+            if alts and all(len(h) == 2 and all(ch in "0123456789ABCDEFabcdef" for ch in h) for h in alts):
+                ops = {int(h, 16) for h in alts}      # fully specified hex codes are authoritative
+            else:
+                ops = {v for v in ops if _hex_match(v, hexs)}
+            mn = r[cm]
+            # restrict by the register size group of the operand encoded in the first byte
+            first_op_groups = [g for g in _GROUPS if g in mn.replace("'" + g[1:], "")]
+            if first_op_groups and len(ops) == 8:
+                allowed = set()
+                for g in first_op_groups:
+                    allowed |= _GROUPS[g]
+                ops = {v for v in ops if (v & 7) in allowed}
+            sels = None
+            if len(parts) > 1 and "/" in parts[1]:
+                b2, h2 = parts[1].split("/", 1)
+                s = _expand_bin(b2)
+                if s is not None:
+                    sels = {v for v in s if _hex_match(v, h2.strip())}
+            elif len(parts) > 1:
+                s = _expand_bin(parts[1])
+                if s is not None and len(s) < 256 and any(ch in parts[1] for ch in "01"):
+                    sels = s
+            try:
+                nb = int(r[cb])
+            except ValueError:
+                nb = None
+            out.append(InstrDoc(mn, r[cf].strip(), nb, ops, sels, ln, t.heading))
+    return out
